@@ -413,6 +413,36 @@ func TestC17(t *testing.T) {
 		}
 		st.Exhaustive["key-path control documents validated"] = n
 	}
+	// (2c) parser-accepted key paths are schema-allowed: any misspelled document the parser lets through must also validate
+	{
+		n, agree := 0, 0
+		forEachMisspelling(func(kp keyPath, segs []string, doc map[string]any) {
+			b, _ := yaml.Marshal(doc)
+			n++
+			_, perr := parseText(string(b), noEnv)
+			v, _ := yamlToJSONValue(b)
+			var all, errs []string
+			s.validate(s.root, v, "$", &all)
+			for _, e := range all {
+				if !strings.Contains(e, "is not in enum") {
+					errs = append(errs, e)
+				}
+			}
+			var vs vlist
+			switch {
+			case perr == nil && len(errs) > 0:
+				vs.add("C17.paths.parser-accepts-schema-rejects", "", "the parser accepts key path %s but the schema does not allow it: %s", strings.Join(segs, "."), strings.Join(errs, "; "))
+			case perr != nil && len(errs) == 0:
+				vs.add("C17.paths.schema-allows-parser-rejects", "", "the schema allows key path %s but the strict parser rejects it: %v", strings.Join(segs, "."), perr)
+			default:
+				agree++
+			}
+			collect(map[string]any{"text": string(b)}, vs, &first)
+		})
+		st.Exhaustive["misspelled key paths on which schema and parser must agree"] = n
+		st.Label("schema-parser-agreement-on-misspellings", agree)
+		st.Record("misspelling-agreement", true, "misspelling-agreement")
+	}
 	// (3) documented enumerated values
 	{
 		n := 0
